@@ -21,6 +21,36 @@ fn main() {
 			}
 		}
 		Some("replay") => search::run_replay(&checks, Path::new(args.get(2).expect("replay file"))),
+		Some("diff") => {
+			// run one seed twice and show the first divergence of the event logs
+			let prop = args.get(2).expect("property id");
+			let scen_name = args.get(3).expect("scenario");
+			let seed: u64 = args.get(4).expect("seed").parse().unwrap();
+			let c = checks.iter().find(|c| c.prop == prop).expect("check");
+			let scen = c.scens.iter().find(|s| s.name == scen_name).expect("scenario");
+			let empty = std::collections::BTreeMap::new();
+			let a = search::run_scen(scen, seed, None, false, &empty, true);
+			let b = search::run_scen(scen, seed, None, false, &empty, true);
+			let mut code = 0;
+			for (i, (x, y)) in a.log.iter().zip(b.log.iter()).enumerate() {
+				if x != y {
+					for l in &a.log[i.saturating_sub(15)..i] {
+						println!("  {l}");
+					}
+					println!("A {x}\nB {y}");
+					code = 1;
+					break;
+				}
+			}
+			if code == 0 && a.log.len() != b.log.len() {
+				println!("lengths differ {} {}", a.log.len(), b.log.len());
+				code = 1;
+			}
+			if code == 0 {
+				println!("identical ({} events, hash {:016x})", a.log.len(), a.hash);
+			}
+			code
+		}
 		Some("list") => {
 			for c in &checks {
 				println!("{} {} scenarios={:?}", c.prop, c.level, c.scens.iter().map(|s| s.name).collect::<Vec<_>>());
